@@ -34,6 +34,8 @@ impl AuthData {
         }
         if let Some(ret) = self.cache.check(user).await {
             trace!("cache hit {} => {}", user.0, ret);
+            #[cfg(redproxy_verif)]
+            crate::vtrace::emit("auth", serde_json::json!({"op": "hit", "user": user.0, "pass": user.1, "verdict": ret}));
             return ret;
         }
         let cmd = self
@@ -49,6 +51,8 @@ impl AuthData {
         let child = child.spawn();
         if let Ok(mut child) = child {
             let status = child.wait().await.unwrap();
+            #[cfg(redproxy_verif)]
+            crate::vtrace::emit("auth", serde_json::json!({"op": "cmd", "user": user.0, "pass": user.1, "verdict": status.success()}));
             return self.cache.set(user, status.success()).await;
         }
 
@@ -100,6 +104,8 @@ impl Cache {
             let mut data = data.lock().await;
             data.remove(&key);
             trace!("cache timeout: {}", key.0);
+            #[cfg(redproxy_verif)]
+            crate::vtrace::emit("auth", serde_json::json!({"op": "evict", "user": key.0, "pass": key.1}));
         });
         value
     }
